@@ -30,9 +30,11 @@ class Gen:
             return "n%d" % r.randrange(10)
         if x < 0.63:
             return "p%d" % r.randrange(ctx["np"])
-        if x < 0.80 and ctx["ts"]:
+        if x < 0.76 and ctx["ts"]:
             return "t%d" % r.choice(ctx["ts"])
-        if x < 0.86 or not allow_arg:
+        if x < 0.84 and ctx["ts"]:
+            return "b%d" % r.choice(ctx["ts"])      # native promise with an overridden own `then`
+        if x < 0.88 or not allow_arg:
             return "u"
         return "a"
 
@@ -76,8 +78,11 @@ class Gen:
         if name in ("pres", "prej"):
             return [name, self.val(ctx), str(r.randrange(np_))]
         if name == "comb":
-            kind = r.choice(["all", "aset", "race", "any"])
+            kind = r.choice(["all", "aset", "aset", "race", "any"])
             n = r.choice([0, 1, 2, 2, 3, 3])
+            if ctx.get("cs") and r.random() < 0.4:
+                # the combinator called on a user-defined constructor whose static resolve returns a misbehaving thenable
+                return [kind + "C", str(r.randrange(np_)), str(r.choice(ctx["cs"])), str(n)] + [self.val(ctx) for _ in range(n)]
             return [kind, str(r.randrange(np_)), str(n)] + [self.val(ctx) for _ in range(n)]
         if name == "call":
             return ["call", str(r.choice(ctx["as"])), str(r.randrange(np_))]
@@ -97,7 +102,7 @@ class Gen:
         np_ = r.choice([2, 3, 4, 5])
         ns = r.choice([2, 3, 4])
         nent = r.choice([2, 3, 4, 5, 6] if not big else [4, 6, 7, 8])
-        ctx = {"np": np_, "ns": ns, "fs": [], "ts": [], "as": [], "kind": "F"}
+        ctx = {"np": np_, "ns": ns, "fs": [], "ts": [], "as": [], "cs": [], "kind": "F"}
         secs = []
         allow_int = r.random() < 0.12
         for _ in range(nent):
@@ -123,6 +128,10 @@ class Gen:
                 idn = len(ctx["ts"])
                 secs.append({"k": "T", "head": [str(idn), str(slot), gt], "acts": acts, "compl": self.compl(dict(c, ts=ctx["ts"]))if r.random() < 0.8 else ["ret", "u"]})
                 ctx["ts"] = ctx["ts"] + [idn]
+                if r.random() < 0.5 and len(ctx["cs"]) < 2:
+                    cid = len(ctx["cs"])
+                    secs.append({"k": "C", "head": [str(cid), r.choice(["s", "f"]), str(idn)], "acts": None})
+                    ctx["cs"] = ctx["cs"] + [cid]
             elif kind == "F":
                 idn = len(ctx["fs"])
                 secs.append({"k": "F", "head": [str(idn)], "acts": [self.act(c) for _ in range(nacts)], "compl": self.compl(c)})
@@ -161,8 +170,8 @@ class Gen:
 def render(secs):
     parts = []
     for s in secs:
-        if s["k"] == "G":
-            parts.append("G " + " ".join(s["head"]))
+        if s["k"] in ("G", "C"):
+            parts.append(s["k"] + " " + " ".join(s["head"]))
         else:
             toks = [s["k"]] + s["head"]
             for a in s["acts"]:
@@ -181,6 +190,9 @@ def restrict(secs, keep):
     keep = set(keep)
     out = []
     for i, s in enumerate(secs):
+        if s["k"] == "C":
+            out.append(s)
+            continue
         if s["k"] == "G":
             if (i, -1) in keep:
                 out.append(s)
@@ -304,8 +316,9 @@ def stats_of(ctx, lines, outs):
     for l in lines:
         for t in l.split():
             if t in ("then", "res", "rej", "new", "catch", "fin", "pres", "prej", "all", "aset", "race", "any", "call", "int", "await",
-                     "awaitt", "log", "gnew", "gres", "grej"):
+                     "awaitt", "log", "gnew", "gres", "grej", "allC", "asetC", "raceC", "anyC"):
                 acts[t] = acts.get(t, 0) + 1
+    st["bad_promise_values(b<id>)"] = st.get("bad_promise_values(b<id>)", 0) + sum(len(re.findall(r" b\d+", l)) for l in lines)
     evh = st.setdefault("events_per_case_hist", {})
     trh = st.setdefault("tracker_entries_per_case_hist", {})
     errs = st.setdefault("error_kinds", {})
@@ -321,7 +334,7 @@ def stats_of(ctx, lines, outs):
                         fin[p[1]] += 1
                 continue
             f = dict(FIELD_RE.findall(seg))
-            evs = [x for x in re.findall(r"(?:^|,)(int|[fxaltgwc])", f.get("ev", ""))]
+            evs = [x for x in re.findall(r"(?:^|,)(int|cr|[fxaltgwceRJC])", f.get("ev", ""))]
             nev += len(evs)
             for kk in evs:
                 kinds[kk] = kinds.get(kk, 0) + 1
